@@ -209,6 +209,17 @@ def wl_ondisk(ctx, rng, case):
         u = P.BloomFilter(filepath=p1, **bl.kw_hash(hf))
         compare(ctx, s, u, [a for a in acc if a[0] != "is_on_disk"], MEMBER_Q, keys, "BloomFilterOnDisk file via BloomFilter(filepath)")
         ctx.check(bytes(u) == data, "BloomFilter(filepath=<on-disk file>) re-exports other bytes")
+        # ---- the element count is WRITABLE: a count set by the application and then saved with export(<own file>) (documented as nothing
+        # to copy) is what every loader of that file reports
+        if rng.random() < 0.5:
+            n2 = rng.randint(0, 40)
+            s.elements_added = n2
+            s.export(p0)
+            for lname, o in (("BloomFilter(filepath)", P.BloomFilter(filepath=p0, **bl.kw_hash(hf))), ("frombytes(file)", P.BloomFilter.frombytes(open(p0, "rb").read(), **bl.kw_hash(hf)))):
+                ctx.check(o.elements_added == n2 == s.elements_added, f"BloomFilterOnDisk: the element count set by the application is not what {lname} reports after export to the own file",
+                          got=o.elements_added, want=n2)
+            ctx.check(bytes(s)[-20:] == open(p0, "rb").read()[-20:], "BloomFilterOnDisk: footer of bytes() and of the own file differ after export to the own file")
+            ctx.count("ondisk_counts_set_by_the_application_and_saved")
         # ---- structures DERIVED from on-disk operands (both on disk, or one in memory): the union / intersection is an in-memory filter
         # like any other - every channel carries the same payload of export_size() bytes, and every loader gives it back
         other = P.BloomFilter(est, rate, **bl.kw_hash(hf))
